@@ -456,6 +456,8 @@ class CallMixin:
         if py is dict:
             if not args and not kwargs:
                 return SDict()
+            if not args and kwargs:
+                return SDict(items=dict(kwargs))        # dict(a=1, b=2) is the literal {"a": 1, "b": 2}
             if args and isinstance(args[0], (SObj, SNew)):
                 d = SDict(name=f"dict({short(args[0])})", concrete=False)
                 d.__dict__["copy_of"] = args[0]
